@@ -12,9 +12,12 @@ def builder_is_lossy(ctx, s, builder):
     fn = ctx.fn("pocket_db::Lmdb::" + builder)
     an = ctx.E.an(fn)
     trunc = pad = False
+    P = ctx.E.prover(fn)
     for b, info in an.calls():
         v = info["value"]
         if v[0] == "sliceto" and contains_value(v[1], lambda x: x[0] == "param"):
+            if P.infeasible(ctx.E.facts(fn, b)):
+                continue        # the truncating branch can never run
             trunc = True
         if (info["callee"] or "").endswith("::repeat"):
             pad = True
